@@ -6,10 +6,9 @@ use serde::{Deserialize, Serialize};
 use text2num::{find_numbers, find_numbers_iter, LangInterpreter};
 
 use crate::driver::{guarded, Check, RunResult, Stats, Violation};
-use crate::pools::{langs, threshold_of, Pool, POOLS, THRESHOLDS};
+use crate::pools::{threshold_of, Pool, POOLS, THRESHOLDS};
 use crate::rng::{Fp, Rng};
 use crate::stream::*;
-use crate::with_lang;
 
 #[derive(Clone, Debug, Serialize, Deserialize)]
 pub struct Case {
@@ -397,7 +396,7 @@ impl Check for C15 {
     }
 
     fn execute(&self, case: &Case, stats: &mut Stats) -> RunResult {
-        with_lang!(langs(), case.lang, case.concrete, l => exec(l, case, stats))
+        crate::with_fresh_lang!(case.lang, case.concrete, l => exec(l, case, stats))
     }
 
     fn shrink(&self, case: &Case) -> Vec<Case> {
